@@ -71,6 +71,15 @@ reg("C17",
     "expansion recorder + metamorphic equality monitor + exhaustive acceptance table", "DESIGN.md §4 C17")
 
 
+reg("C10",
+    "Exploration, exhaustive over the finite option lattice (504 points): each point is expanded by real rustc; the recorder shows "
+    "which mock attributes sit on the trait and whether they are wrapped in cfg_attr(test, ..); wherever the point can compile it is "
+    "also built as a non-test and as a test binary whose run-time probes report whether Unimock implements the trait and whether "
+    "the mockall type exists. Both are compared with a small executable model of the documented rules.",
+    "One item per target kind; probes rest on rustc method resolution / glob-import rules and are self-tested in every run.",
+    "exhaustive lattice enumeration + recorder attribute monitor + run-time existence probes in test/non-test builds", "DESIGN.md §4 C10")
+
+
 def manifest():
     hooks_commits = subprocess.run(["git", "-C", "/repo", "log", "--format=%H", "--grep=^verif hook"],
                                    stdout=subprocess.PIPE, text=True).stdout.split()
